@@ -553,6 +553,99 @@ theorem session_roundtrip {l l' : Nat} {items : List (List Nat × Frame)} (h : C
     congr 1
     exact ih { fr with lastHeaderStream := l1 } rfl (fun it hit => hmax it (by simp [hit]))
 
+/-! ### One Framer, many calls: the write buffer never leaks into a later frame -/
+
+/-- `startWrite … endWrite` on a Framer whose buffer holds anything is `frameBytes`: the stale
+content is dropped by `startWrite`. -/
+theorem endWriteS_startWriteS (w : List Nat) (t fl sid : Nat) (payload : List Nat) :
+    (endWriteS (startWriteS w t fl sid ++ payload)).1 = frameBytes t fl sid payload := by
+  unfold endWriteS startWriteS frameBytes
+  simp only [List.cons_append, List.nil_append, List.length_cons, List.drop_succ_cons, List.drop_zero]
+  have : payload.length + 1 + 1 + 1 + 1 + 1 + 1 + 1 + 1 + 1 - 9 = payload.length := by omega
+  rw [this]
+  split <;> rfl
+
+/-- The result of a Write call — the bytes handed to the writer, or the error — does not depend on
+what earlier calls left in the Framer's write buffer: it is the result on a fresh Framer. -/
+theorem runCall_result (w : List Nat) (c : Call) : (runCall w c).1 = c.fresh := by
+  cases c with
+  | data sid es d pad =>
+    simp only [runCall, Call.fresh, writeData]
+    split
+    · rfl
+    cases pad with
+    | none => simp only; exact endWriteS_startWriteS _ _ _ _ _
+    | some p =>
+      simp only
+      split
+      · rfl
+      split
+      · rfl
+      simp only [List.append_assoc, List.singleton_append]
+      exact endWriteS_startWriteS _ _ _ _ _
+  | headers sid frag es eh padLen prio =>
+    simp only [runCall, Call.fresh, writeHeaders]
+    split
+    · rfl
+    split
+    · rfl
+    simp only [List.append_assoc]
+    exact endWriteS_startWriteS _ _ _ _ _
+  | priority sid p =>
+    simp only [runCall, Call.fresh, writePriority]
+    split
+    · rfl
+    split
+    · rfl
+    exact endWriteS_startWriteS _ _ _ _ _
+  | rstStream sid code =>
+    simp only [runCall, Call.fresh, writeRSTStream]
+    split
+    · rfl
+    exact endWriteS_startWriteS _ _ _ _ _
+  | settings ss => exact endWriteS_startWriteS _ _ _ _ _
+  | settingsAck =>
+    have := endWriteS_startWriteS w frameSettings flagAck 0 []
+    simpa [runCall, Call.fresh, writeSettingsAck] using this
+  | ping ack d => exact endWriteS_startWriteS _ _ _ _ _
+  | goAway m c d =>
+    simp only [runCall, Call.fresh, writeGoAway, List.append_assoc]
+    exact endWriteS_startWriteS _ _ _ _ _
+  | windowUpdate sid incr =>
+    simp only [runCall, Call.fresh, writeWindowUpdate]
+    split
+    · rfl
+    exact endWriteS_startWriteS _ _ _ _ _
+  | continuation sid eh frag =>
+    simp only [runCall, Call.fresh, writeContinuation]
+    split
+    · rfl
+    exact endWriteS_startWriteS _ _ _ _ _
+  | pushPromise sid pid frag eh padLen =>
+    simp only [runCall, Call.fresh, writePushPromise]
+    split
+    · rfl
+    split
+    · rfl
+    simp only [List.append_assoc]
+    exact endWriteS_startWriteS _ _ _ _ _
+  | priorityUpdate sid p =>
+    simp only [runCall, Call.fresh, writePriorityUpdate]
+    split
+    · rfl
+    simp only [List.append_assoc]
+    exact endWriteS_startWriteS _ _ _ _ _
+  | raw t fl sid p => exact endWriteS_startWriteS _ _ _ _ _
+
+/-- The write-buffer invariant over call sequences: on one Framer, starting from any buffer content,
+every call of any sequence yields exactly what it yields on a fresh Framer — in particular a call
+rejected after `startWrite` (invalid StreamDep / PromiseID, ErrFrameTooLarge) leaves nothing behind
+that a later accepted call would emit: the bytes written by an accepted call are exactly that frame. -/
+theorem runCalls_results (w : List Nat) (cs : List Call) : (runCalls w cs).1 = cs.map Call.fresh := by
+  induction cs generalizing w with
+  | nil => rfl
+  | cons c rest ih => simp only [runCalls, List.map_cons, runCall_result, ih]
+
 /-! ### Non-vacuity: the hypotheses are satisfiable by non-trivial values -/
 
 example : ∃ bs, writeData 77 true [1, 2, 3] (some [0, 0]) = .ok bs := ⟨_, rfl⟩
@@ -561,6 +654,12 @@ example : ∃ bs, writePushPromise 1 2 [9, 9] true 3 = .ok bs := ⟨_, rfl⟩
 example : ∃ bs, writeSettings [(1, 4096), (4, 2147483647)] = .ok bs ∧
     IWSOverflow [(1, 4096), (4, 2147483647)] = false := ⟨_, rfl, rfl⟩
 example : IWSOverflow [(3, 100), (4, 4294967295), (4, 1)] = true := rfl
+/-- a WriteHeaders rejected after `startWrite` leaves a partial frame in the buffer … -/
+example : runCall [] (.headers 1 [7] false true 5 ⟨2147483648, false, 0⟩)
+    = (.error .depStreamID, [0, 0, 0, 1, 44, 0, 0, 0, 1, 5]) := rfl
+/-- … which the next accepted call does not emit. -/
+example : (runCalls [] [.headers 1 [7] false true 5 ⟨2147483648, false, 0⟩, .ping false [1, 2, 3, 4, 5, 6, 7, 8]]).1
+    = [.error .depStreamID, .ok [0, 0, 8, 6, 0, 0, 0, 0, 0, 1, 2, 3, 4, 5, 6, 7, 8]] := rfl
 example : ∃ bs, writeRawFrame 200 255 77 [1, 2] = .ok bs ∧ ∀ p ∈ Gen.C06.frameParsers, p.1 ≠ 200 :=
   ⟨_, rfl, by decide⟩
 /-- a HEADERS without END_HEADERS followed by its CONTINUATION chain up. -/
